@@ -1,1 +1,2 @@
 pub mod runner;
+pub mod sched;
